@@ -358,6 +358,46 @@ def c15(ctx):
                   exhaustive=True)
 
 
+# ----------------------------------------------------------------------------- C14
+@prop("C14")
+def c14(ctx):
+    cases = gen(ctx, "Gen_C14", cfgtext(invariants=["FullWidth", "RoundTrip", "Emit"], constants=dict(ToySize=2)), timeout=3000, heap="8g")
+    cases += harness(ctx, ["drive", "keyrt"])
+    events = harness(ctx, ["exec", "keyrt"], cases)
+    rejects = judge(ctx, "Trace_C14", events)
+    short = lambda e: e["curve"] != "ed" and e["stage"] == "done" and (len(e["x"]) < {"p256": 32, "p384": 48, "p521": 66}[e["curve"]] or len(e["y"]) < {"p256": 32, "p384": 48, "p521": 66}[e["curve"]])
+    ctx.notes["keys_with_short_coordinate"] = sum(1 for e in events if short(e))
+    return report(ctx, events, rejects,
+                  nontrivial=lambda e: e["stage"] == "done",
+                  key=lambda e: (e["curve"], tuple(e["d"]), json.dumps(e["extras"], sort_keys=True)),
+                  rule="TLC checks the conversion design (Go big.Int trims leading zeros, encoder pads x/y to the field size, decoder reads back) for every "
+                       "coordinate value of a 2-byte toy field, and enumerates every fixture key (3 curves x leading-zero classes of x, y, d incl. 1- and 2-byte "
+                       "short coordinates and tiny scalars, Ed25519) x optional parameters; a seeded driver adds random and small scalars (about 1 in 128 keys has "
+                       "a short coordinate, counted in keys_with_short_coordinate); each key goes through the real NewKeyFrom*/Marshal/Unmarshal/PrivateKey/"
+                       "PublicKey/Signer/Verifier; TLC parses the serialised keys and judges widths, values, round trip and signature acceptance",
+                  exhaustive=False)
+
+
+# ----------------------------------------------------------------------------- C17
+@prop("C17")
+def c17(ctx):
+    cases = gen(ctx, "Gen_C17", cfgtext(invariants=["Emit"]), timeout=3000)
+    fac = [c for c in cases if c["what"] == "factory"]
+    dig = [c for c in cases if c["what"] == "digest"]
+    if ctx.quick():
+        dig = [c for c in dig if c["msglen"] in (0, 56, 1000) or c["alg"] in (-7, -37)]
+    events = harness(ctx, ["exec", "factory"], fac) + harness(ctx, ["exec", "digest"], dig)
+    rejects = judge(ctx, "Trace_C17", events)
+    return report(ctx, events, rejects,
+                  nontrivial=lambda e: True,
+                  key=lambda e: json.dumps({k: v for k, v in e.items() if k not in ("res", "reported", "nilresult", "sign", "verify", "stdv", "panic")}, sort_keys=True),
+                  rule="TLC enumerates the full factory matrix (7 built-in + 3 RS* + reserved + unknown + private-use + hash algorithm ids x 14 signer key kinds / 15 "
+                       "public-key kinds: RSA 1024/2047/2048/3072, ECDSA P-224/256/384/521, off-curve and infinity points, value-typed keys, Ed25519, opaque and "
+                       "foreign crypto.Signers) and the digest-equivalence space (6 algorithms x message lengths x Sign/SignDigest x Verify/VerifyDigest x every "
+                       "hash x native/opaque key); the real factories and entry points run; TLC compares with the decision tables of CoseCrypto.tla",
+                  exhaustive=True)
+
+
 def setup():
     ctx = Ctx("setup", "quick", 1)
     try:
